@@ -6,16 +6,20 @@ server-set callbacks).
 
 The real HeapBalancerSink / ApertureBalancerSink is driven with
   * mock channel sinks below it (state Idle/Open/Busy/Closed set by the script, Open() results
-    completed by the script, Close() calls counted, requests held until the script completes them
-    by reply / error / timeout (drain from the top of the sink stack) / connection fault, late
-    arrivals after a drain),
+    completed by the script, Close() calls counted - and, where the script says so, raising after
+    the channel was closed (teardown error on a dead peer) -, requests held until the script
+    completes them by reply / error / timeout (drain from the top of the sink stack) / connection
+    fault, late arrivals after a drain),
   * a mock server-set provider (initial list, a GetServers that can block so notifications land
     while the initial list is loading, serial delivery of join/leave notifications incl. duplicate
-    joins, leaves of unknown members and re-joins),
+    joins, leaves of unknown members and re-joins; an exception raised by a callback is logged by
+    the delivery worker, which carries on - as scales.loadbalancer.zookeeper.ServerSet does),
   * a scripted `random` in scales.loadbalancer.{base,heap,aperture} (values logged).
-Direction A: TLC -simulate behaviours of HeapBalancer / LbBase stepped on the real object with a
-state projection compared after every step (heap array, loads, down marks, downq chain; _servers,
-heap endpoints, init gate), and, for C03, TLC's shortest counterexample on the model of heap.py
+Direction A: TLC -simulate behaviours of HeapBalancer (plain heap, and Aperture = TRUE on the real
+ApertureBalancerSink with the random.choice of every expansion forced) / LbBase (the Close() calls of
+the model's BadClose nodes raising) stepped on the real object with a state projection compared after
+every step (heap array, loads, down marks, downq chain, idle endpoints; _servers, heap endpoints,
+init gate), and, for C03, TLC's shortest counterexample on the model of heap.py
 as found (HeapBalancer_6u.cfg, Repaired = FALSE) replayed on the real class: it yields a
 VIOLATION exactly when the tree under check still lacks fixes/C03-heap-fixup.diff.
 Direction B: seeded random and systematically enumerated histories.  Every verdict is decided by
@@ -42,13 +46,22 @@ ASSUMPTIONS = [
   'TLC exhaustive only within the stated constants (members, loads, nodes, notifications)',
   'the model-checked HeapBalancer configs model heap.py WITH fixes/C03-heap-fixup.diff (Repaired = TRUE); the '
   'variant as found (Repaired = FALSE) is kept as a counterexample generator (expect_violation)',
+  'a Close() that raises has closed the channel first (state Closed, CloseSeen logged); the exception reaches '
+  'whoever called into the balancer: the provider\'s delivery worker (logged, next notification delivered) or the '
+  'completing caller (recorded as Raised)',
+  'the aperture model (HeapBalancer with Aperture = TRUE) and the aperture family configure load-based resizing '
+  'and jitter off; the seeded random histories also run with them on',
   'a livelock of the code under test is cut by a CPU-time watchdog (10 s) and an exception it raises into its '
   'caller is recorded; the history recorded so far is judged in both cases',
 ]
 RULE = {
   'C03': 'seeded random histories of dispatch / completion (any order, scripted randint) / channel down-up / '
          'join / leave on the real heap and aperture balancers, the systematic family D^k Put(c,j) D^m for 6-7 '
-         'members, and TLC-simulated behaviours of HeapBalancer; non-trivial = at least 3 dispatches with >= 2 '
+         'members, the aperture family (aperture of 2-4 with idle endpoints: a member goes Closed / Busy under '
+         'every load pattern of 0/1, the replacement is pulled in inside the dispatch that finds it at the heap '
+         'root, its Open() completes at once / after the j-th next dispatch / from a spawned greenlet; a second '
+         'member failing afterwards) plus seeded random histories of the same kind, and TLC-simulated '
+         'behaviours of HeapBalancer (heap and aperture); non-trivial = at least 3 dispatches with >= 2 '
          'members in use and at least one completion, channel flip or membership change before the last dispatch; '
          'distinct by canonical event list',
   'C04': 'same engine, histories weighted towards every completion kind (reply, error, timeout then late reply, '
@@ -60,7 +73,9 @@ RULE = {
          'arrival; distinct by canonical event list',
   'C05': 'join/leave histories (duplicates, unknown leaves, re-joins) interleaved with traffic and with the open '
          'sequence (notifications landing while GetServers blocks, early/late snapshot, provider failure and '
-         'retry), plus TLC-simulated behaviours of LbBase; non-trivial = at least 2 notifications of which one is '
+         'retry), leaves of idle / down / loaded members whose channel Close() raises (scripted per channel or '
+         'per endpoint: 1st / 2nd Close) followed by re-joins, further leaves and dispatches - enumerated and '
+         'seeded random -, plus TLC-simulated behaviours of LbBase; non-trivial = at least 2 notifications of which one is '
          'a duplicate join, an unknown leave, a re-join or lands before loading completes; distinct by canonical '
          'event list',
 }
@@ -109,8 +124,21 @@ def models(prop, tier):
             heap='24g', may_be_unused=['Park', 'Timeout', 'OpenComplete', 'RunDeferred'],
             what='open sequence (provider failure + retry, early/late snapshot), __init_done gate, serial '
                  'notifications: all histories of %d notifications over 3 symmetric endpoint names' % (5 if quick else 6))
+  ap = dict(module='HeapBalancer', cfg='HeapBalancer_ap.cfg', coverage=not quick,
+            may_be_unused=['LateArrive', 'AddSink', 'RemoveSink', 'JoinDup', 'LeaveUnknown'],
+            what='ApertureBalancerSink (resizing / jitter off), aperture of 2 + 1 idle endpoint, 3 node objects, loads <= 2: '
+                 'channels go down / come back, the replacement is pulled into the heap inside __Get (open at once or '
+                 'still opening), exhaustive')
+  ap_s = dict(module='HeapBalancer', cfg='HeapBalancer_apS.cfg', expect_violation='NoViolation',
+              what='counterexample generator: _AsyncProcessRequestImpl re-using the _size read before __Get as the bound '
+                   'of the FixDown after the pick (StaleSize = TRUE) violates C03.openLeast (a member goes down, 2 dispatches)')
+  ap4 = dict(module='HeapBalancer', cfg='HeapBalancer_ap4.cfg', timeout=7200, heap='24g',
+             what='aperture of 2 + 2 idle endpoints, 4 node objects, loads <= 1, channel down / up, exhaustive')
+  apm = dict(module='HeapBalancer', cfg='HeapBalancer_apm.cfg', timeout=7200, heap='24g',
+             what='aperture of 2 over 3 endpoints, 4 node objects, loads <= 1: join / leave / re-join (replacement of a '
+                  'departed member from the idle set), duplicate joins, unknown leaves, channel down / up, exhaustive')
   if prop == 'C03':
-    return [m6, m6u, m4f] if quick else [m6, m6u, m5u, m4f, m7]
+    return [m6, m6u, m4f, ap, ap_s] if quick else [m6, m6u, m5u, m4f, ap, ap_s, ap4, apm, m7]
   if prop == 'C04':
     return [m3d, m4m, gate, gate_s] if quick else [m3d, m4m, gate, gate_s, m4f, m4d]
   close_s = dict(module='LbBase', cfg='LbBase_closeS.cfg', expect_violation='QuietOK',
@@ -323,6 +351,7 @@ def _drive(script):
         dq.append(n.channel.cid)
         n = n.downq
       return {'heap': heap, 'downq': dq, 'size': b._size,
+              'idle': sorted(eid_of(x) for x in getattr(b, '_idle_endpoints', ())),
               'heap_eps': sorted(eid_of(n.endpoint) for n in b._heap[1:]),
               'servers': sorted(eid_of(x) for x in b._servers),
               'init_done': bool(getattr(b, '_LoadBalancerSink__init_done').is_set())}
@@ -729,8 +758,11 @@ def _drive(script):
     elif k == 'failnext':
       prov.fail_next = True
     elif k in ('join', 'leave'):
+      if len(op) > 3:
+        srand.forced.extend(op[3])      # outcomes of random.choice while the notification is processed
       prov.notify('J' if k == 'join' else 'L', op[1])
       quanta(op[2] if len(op) > 2 else -1)
+      del srand.forced[:]
     elif k == 'pol':
       H.pol = op[1]
     elif k == 'chan':
@@ -747,7 +779,10 @@ def _drive(script):
         c.finish_open(c.open_ar, bool(op[2]))
         quanta(op[3] if len(op) > 3 else -1)
     elif k == 'disp':
+      if len(op) > 3:
+        srand.forced.extend(op[3])      # outcomes of random.choice inside this dispatch
       dispatch(op[1] if len(op) > 1 else 0, op[2] if len(op) > 2 else 0)
+      del srand.forced[:]
     elif k == 'disp_dl':
       dispatch(op[1] if len(op) > 1 else 0, 0, True)
     elif k == 'tmo':
@@ -1310,8 +1345,8 @@ def cases(prop, tier, seed):
     for i in range(n):
       out.append(_gen_traffic(rng, 'heap' if i % 3 else 'aperture', prop))
     fam = _family_aperture_down()
-    out.extend(fam if not quick else fam[int(seed) % 3::3])
-    for i in range(150 if quick else 2000):
+    out.extend(fam if not quick else fam[int(seed) % 4::4])
+    for i in range(120 if quick else 2000):
       out.append(_gen_aperture_down(rng, prop))
   elif prop == 'C04':
     out.extend(_family_small())
@@ -1413,21 +1448,35 @@ def extra_coverage(prop, tier, traces):
 
 # ====================================================================== direction A
 SIM_HEAP = {'C03': ('HeapBalancer_sim7.cfg', 40), 'C04': ('HeapBalancer_sim4.cfg', 40)}
+SIM_AP = ('HeapBalancer_simap.cfg', 30, 2)      # cfg, depth, its MinSize
 
 
-def _heap_script(beh):
-  """Translate one HeapBalancer behaviour into a driver script + expected projections."""
+def _heap_script(beh, aperture=None):
+  """Translate one HeapBalancer behaviour into a driver script + expected projections.
+  aperture = {'min_size': MinSize} for behaviours of an Aperture = TRUE configuration (driven on the
+  real ApertureBalancerSink, load-based resizing and jitter off): the action parameters `pick`
+  (random.choice of _TryExpandAperture) and `nst` (the new channel opens at once / is still opening)
+  are forced on the real object."""
   st0 = beh[0][1]
-  init_n = len(st0['heap'])
-  faults = any(a and a[0] == 'ChanFlip' for a, _ in beh[1:]) or \
-      any(v != 2 for n, v in enumerate(st0['chan'][:init_n]))
+  init_n = len(st0['heap']) + len(st0.get('idle', []))
   ops = [['pol', 'sync'], ['open'], ['settle']]
   expect = [None, None, None]
   closed_new = None
+
+  def choice_of(prev, pick):
+    idle = sorted(prev.get('idle', []))
+    return [idle.index(pick) if pick in idle else 0, 0, 0, 0, 0, 0]
+
+  prev = st0
   for (act, st) in beh[1:]:
     name, prm = act
     if name == 'Dispatch':
-      ops.append(['disp', 0, 0])
+      if aperture:
+        ops.append(['pol', 'sync' if prm[1] == 2 else 'manual'])
+        expect.append(None)
+        ops.append(['disp', 0, 0, choice_of(prev, prm[0])])
+      else:
+        ops.append(['disp', 0, 0])
     elif name == 'Put':
       ops.append(['comp_n', prm[0], prm[2], prm[1]])
     elif name == 'LateArrive':
@@ -1435,13 +1484,20 @@ def _heap_script(beh):
     elif name in ('AddSink', 'JoinDup'):
       if name == 'AddSink':
         n_new = sum(1 for x in st['ns'] if x != 'free')
-        if closed_new is None:
+        if aperture:
+          closed_new = True       # Faults = TRUE in the aperture configurations: new channels are still opening
+        elif closed_new is None:
           closed_new = st['chan'][n_new - 1] != 2
         ops.append(['pol', 'manual' if closed_new else 'sync'])
         expect.append(None)
       ops.append(['join', prm[0], -1])
     elif name in ('RemoveSink', 'LeaveUnknown'):
-      ops.append(['leave', prm[0], -1])
+      if aperture and name == 'RemoveSink':
+        ops.append(['pol', 'sync' if prm[2] == 2 else 'manual'])
+        expect.append(None)
+        ops.append(['leave', prm[0], -1, choice_of(prev, prm[1])])
+      else:
+        ops.append(['leave', prm[0], -1])
     elif name == 'ChanFlip':
       ops.append(['chan_n', prm[0], prm[1]])
     else:
@@ -1450,9 +1506,17 @@ def _heap_script(beh):
     P = 100
     heap = [[n, load[n - 1] - (P if load[n - 1] >= P else 0), 1 if load[n - 1] >= P else 0, i + 1]
             for i, n in enumerate(st['heap'])]
-    expect.append({'heap': heap, 'downq': list(st['downq']), 'size': len(st['heap'])})
+    exp = {'heap': heap, 'downq': list(st['downq']), 'size': len(st['heap'])}
+    if aperture:
+      exp['idle'] = sorted(st.get('idle', []))
+    expect.append(exp)
+    prev = st
   script = {'kind': 'heap', 's0': list(range(1, init_n + 1)), 'rseed': 0, 'pol': 'sync', 'shuffle_id': True,
             'load': {'mode': 'nonblock'}, 'ops': ops, 'impl': True}
+  if aperture:
+    ap = dict(AP_FIXED)
+    ap.update(min_size=aperture['min_size'], max_size=2 ** 31)
+    script.update(kind='aperture', ap=ap)
   return script, expect
 
 
@@ -1530,6 +1594,8 @@ def _replay_case(job):
     steps += 1
     if which == 'heap':
       got = {'heap': real['heap'], 'downq': real['downq'], 'size': real['size']}
+      if 'idle' in exp:
+        got['idle'] = real.get('idle')
     else:
       got = {'servers': real['servers'], 'heap_eps': real.get('heap_eps', []), 'init_done': real['init_done']}
     if got != exp:
@@ -1573,6 +1639,14 @@ def replay_behaviours(prop, tier, seed):
       raise RuntimeError('no behaviours from TLC simulate:\n' + r.stdout[-2000:])
     for b in behs:
       sc, ex = _heap_script(b)
+      jobs.append({'script': sc, 'expect': ex, 'which': 'heap'})
+    # the same on the real ApertureBalancerSink: behaviours of the Aperture = TRUE model (growth inside __Get)
+    num = 80 if quick else 1500
+    r, behs = tlc.simulate_behaviours('HeapBalancer', SIM_AP[0], num=num, depth=SIM_AP[1], seed=int(seed) + 1, timeout=900)
+    if not behs:
+      raise RuntimeError('no behaviours from TLC simulate:\n' + r.stdout[-2000:])
+    for b in behs:
+      sc, ex = _heap_script(b, aperture={'min_size': SIM_AP[2]})
       jobs.append({'script': sc, 'expect': ex, 'which': 'heap'})
   else:
     num = 300 if quick else 2500
